@@ -8,14 +8,12 @@ Lemma inv_cstep s : Inv s -> cpcf s <> CDone -> Inv (fst (cstep s)).
 Proof.
   intros I E. destruct (alive_creator s (proj1 I) E) as (A & B). pose proof I as I0. open_inv I.
   specialize (Irc A).
-  unfold cstep. destruct (cpcf s) as [| | |r e| | |k|] eqn:C; cbn [fst]; try congruence.
+  unfold cstep. destruct (cpcf s) as [| | |r e| | |k| | |] eqn:C; cbn [fst]; try congruence.
   - (* CClaim *)
-    pre; mk_inv; go.
+    destruct (mode s) eqn:M; pre; mk_inv; go.
   - (* CDtor *)
     destruct (mode s) eqn:M.
-    2: { rewrite touch_alive by exact A. destruct (slot s) as [l|] eqn:SL.
-      + pre; mk_inv; go.
-      + pre; mk_inv; go. }
+    2,6: rewrite touch_alive by exact A; destruct (slot s) as [l|] eqn:SL; pre; mk_inv; go.
     all: pre; mk_inv; go.
   - (* CSet *)
     rewrite add_ref_alive by exact A.
@@ -40,5 +38,9 @@ Proof.
   - (* CDrop *)
     rewrite drop_ref_alive by assumption.
     destruct k as [|[|k]]; use_dropped s B; pre; mk_inv; go.
+  - (* CGate1 *)
+    pre; mk_inv; go.
+  - (* CGate2 *)
+    pre; mk_inv; go.
 Qed.
 
